@@ -146,7 +146,7 @@ def run(ctx):
     cases = []
     for s, d in picked:
         cases.append({"src": s, "dst": d, "del": rng.random() < 0.5, "cwd": rng.choice(["outside", "root", "inside"]), "sibling": rng.random() < 0.7,
-                      "tv": rng.choice([0, 0, 1, 2])})
+                      "tv": rng.choice([0, 0, 1, 2]), "slash": rng.random() < 0.3})
     if not ctx.quick:
         cases += [dict(c, **{"del": not c["del"]}) for c in cases[:: 3]]
     gw = execnet.makegateway("popen")
